@@ -7,18 +7,22 @@
 (* is stepped along the events (the logged operation and its arguments bind *)
 (* the action); after every event                                           *)
 (*   - the REQUIREMENT is evaluated on the LOGGED state and facts (Impl..:   *)
-(*     a failure is a property violation; where the machine - which has the *)
-(*     implementation's aliasing classes switched on - predicts the failure *)
-(*     as a consequence of an aliasing class, the failure is reported as    *)
-(*     Known.. together with the taint set), and                             *)
-(*   - the logged state is compared with the machine's state (Conforms..).   *)
+(*     a failure is a property violation).  Where the machine - which has   *)
+(*     the implementation's documented aliasing classes switched on -       *)
+(*     predicts a failure as a consequence of such a class, the failure is  *)
+(*     collected in the set `known` (printed by TDone at the end of the     *)
+(*     history) together with the aliasing facts themselves, and            *)
+(*   - the logged state is compared with the machine's state (Conforms..).  *)
+(* Histories come from harness/c15_driver.py (random and TLC-generated      *)
+(* behaviours) and from harness/c15_pytest_trace.py (the repository's own   *)
+(* tests); they are supplied as module C15Data.                             *)
 EXTENDS ApiHistory, C15Data
 
 VARIABLES hid, i, obs, ev, stuck, known, done, pure
 tvars == <<vars, hid, i, obs, ev, stuck, known, done, pure>>
 
 NoEv == [op |-> "Init", lay |-> "none", m |-> "none", keep |-> FALSE, f |-> FALSE, typ |-> "none",
-         cls |-> "none", k |-> "none", i |-> 0, refused |-> FALSE, err |-> FALSE, stored |-> TRUE,
+         cls |-> "none", k |-> "none", i |-> 0, chg |-> TRUE, refused |-> FALSE, err |-> FALSE, stored |-> TRUE,
          qok |-> TRUE, frame |-> TRUE]
 
 StateRec == [layout |-> layout, nacm |-> nacm, massS |-> massS, massU |-> massU, dsT |-> dsT, dsF |-> dsF,
@@ -34,9 +38,9 @@ Do(e) ==
   \/ e.op = "SetNAC" /\ SetNAC(e.m, e.keep)
   \/ e.op = "ClearNAC" /\ ClearNAC
   \/ e.op = "SetMasses" /\ SetMasses(e.keep)
-  \/ e.op = "Symmetrize" /\ Symmetrize
-  \/ e.op = "SymmetrizeSG" /\ SymmetrizeSG
-  \/ e.op = "Cutoff" /\ Cutoff
+  \/ e.op = "Symmetrize" /\ Symmetrize(e.chg)
+  \/ e.op = "SymmetrizeSG" /\ SymmetrizeSG(e.chg)
+  \/ e.op = "Cutoff" /\ Cutoff(e.chg)
   \/ e.op = "SetDataset" /\ SetDataset(e.f, e.typ, e.keep)
   \/ e.op = "SetDisplacements" /\ SetDisplacements
   \/ e.op = "SetForces" /\ SetForces(e.keep)
